@@ -327,3 +327,9 @@ SPECS["C16"]["level_text"] = ("proved: every export rewinds every source view be
                               "all stream shapes) - so a view's cursor left by an earlier ls/export cannot influence the bytes; from a rewound view the "
                               "pass-through data is exactly the window (drain lemma); CDDA windows are created rewound; view reads do not depend on "
                               "the shared handle's cursor (C11). " + SPECS["C16"]["level_text"])
+
+SPECS["C14"]["bounded"].append(("contracts.e2e_more", "e2e:C14-roland"))
+SPECS["C14"]["not_covered"] = ["Roland volume/performance/patch/partial record damage (sample records are swept)"]
+SPECS["C14"]["level_text"] += ". Added: Roland sample directory / parameter record damage sweep for a performance of 4 samples"
+SPECS["C11"]["bounded"].append(("contracts.e2e_more", "bounded:chain_lookup_history"))
+SPECS["C16"]["bounded"].append(("contracts.e2e_more", "bounded:chain_lookup_history"))
